@@ -10,5 +10,5 @@ CONSTANTS
   HH = 10
 INIT Init
 NEXT Next
-INVARIANTS TypeOK Sound Complete CounterSound CounterLive Export
+INVARIANTS TypeOK Sound Complete Counter Export
 CHECK_DEADLOCK FALSE
